@@ -138,3 +138,27 @@ extern "C" void h_tn_g_pushed_one() { unsigned char fc[8]; World w(*reinterpret_
 extern "C" void h_tn_g_popped() { unsigned char fc[8]; World w(*reinterpret_cast<SMTConfig const *>(fc)); reset_ref(true); do_push(w); do_insert(w, 0, 0); do_pop(w); finish(w); }
 // prefix "1P4", global mode
 extern "C" void h_tn_g_two() { unsigned char fc[8]; World w(*reinterpret_cast<SMTConfig const *>(fc)); reset_ref(true); do_insert(w, 0, 0); do_push(w); do_insert(w, 1, 1); finish(w); }
+
+// the shortest history behind DESIGN 7-F1, straight-line: a name given inside a scope that is then popped
+extern "C" void h_popped_name_is_gone() {
+    global_mode = false;
+    unsigned char fc[8];
+    TermNames tn(*reinterpret_cast<SMTConfig const *>(fc));
+    std::string const a("a");
+    PTRef const t{1};
+    tn.pushScope();
+    bool r = tn.tryInsert(a, t);
+    VASSERT(r, "a fresh name can be given");
+    VASSERT(tn.contains(t), "the term is named inside the scope");
+    tn.popScope();
+    VASSERT(!tn.contains(a), "after the pop the name is unknown");
+    VASSERT(tn.size() == 0, "after the pop the scoped list is empty");
+#ifndef KF_C21_EMPTY_VECTOR
+    // known finding (guarded): eraseTermName leaves an empty vector in termToNames
+    VASSERT(!tn.contains(t), "after the pop the term has no name any more");
+#endif
+    bool r2 = tn.tryInsert(a, t);
+    VASSERT(r2, "a popped name can be given again");
+    VASSERT(tn.contains(t) && tn.contains(a), "and is then known again");
+    VWITNESS("popped-and-renamed");
+}
